@@ -260,6 +260,38 @@ fn judge(ctx: &mut Ctx, what: &dyn Fn() -> String, arch: u32, m: &[Option<Vec<u8
     for i in &items {
         ctx.tx.bytes(&built[16 + i.off..16 + i.off + i.size]);
     }
+    // the library's own walk of the built header (iter() in every state) sees exactly these tags
+    {
+        let base = built.as_ptr() as usize;
+        let r = ctx.call("iter() of the built header", || {
+            let h = unsafe { Multiboot2Header::load(built.as_ptr() as *const Multiboot2BasicHeader) }.unwrap();
+            let off = |t: &multiboot2_common::DynSizedStructure<multiboot2_header::HeaderTagHeader>| t as *const _ as *const u8 as usize - base;
+            let offs: Vec<usize> = h.iter().map(off).collect();
+            let cnt = h.iter().count();
+            let last = h.iter().last().map(off);
+            let mut it = h.iter();
+            let first = it.next().map(off);
+            let cnt1 = it.clone().count();
+            let last1 = it.last().map(off);
+            let mut d = h.iter();
+            while d.next().is_some() {}
+            (offs, cnt, last, first, cnt1, last1, d.clone().last().is_none(), d.count())
+        });
+        let want: Vec<usize> = items.iter().map(|i| 16 + i.off).collect();
+        let n = want.len();
+        match r {
+            Out::Val((offs, cnt, last, first, cnt1, last1, dl, dc)) => {
+                if offs != want || cnt != n || last != want.last().copied() || first != want.first().copied() || cnt1 != n.saturating_sub(1) || last1 != (if n >= 2 { want.last().copied() } else { None }) || !dl || dc != 0 {
+                    ctx.violation("c12/library-walk", || format!("{}: iter() of the built header yields offsets {:?}, count() {}, last() {:?}; after one next() ({:?}): count() {}, last() {:?}; drained: last() is None = {}, count() = {}; the built bytes hold tags at {:?}", what(), offs, cnt, last, first, cnt1, last1, dl, dc, want));
+                    return;
+                }
+            }
+            Out::Panic => {
+                ctx.violation("c12/library-walk", || format!("{}: iter() of the built header panicked", what()));
+                return;
+            }
+        }
+    }
     // terminated by an end tag (type 0, flags 0, size 8) as the final 8 bytes
     let last = items.last();
     if last.map(|l| (l.typ, l.flags, l.size, l.off + 16 + 8)) != Some((0, 0, 8, built.len())) {
